@@ -284,11 +284,68 @@ fn unitcmp_oracle(c: &UnitCmp) -> Verdict {
     Verdict::Pass(if nt { "near-unit/negative" } else { "plain" }, nt)
 }
 
+// ---------------------------------------------------------------- every pair of special values (enumerated)
+fn special_counts() -> Vec<i128> {
+    let mut v: Vec<i128> = vec![0, 1, -1, 2, -2, DMIN, DMIN + 1, DMAX, DMAX - 1, i64::MAX as i128, i64::MIN as i128, NPC / 2, -NPC / 2, NPC / 2 + 1, -(NPC / 2) - 1];
+    for k in [1i128, 2, 3, 100] {
+        for d in [-1i128, 0, 1] {
+            v.push(k * NPC + d);
+            v.push(-k * NPC + d);
+        }
+    }
+    for u in UNIT_NS {
+        v.push(u);
+        v.push(-u);
+        v.push(2 * u);
+        v.push(-2 * u);
+    }
+    v.sort();
+    v.dedup();
+    v
+}
+
+#[derive(Clone, Debug, Serialize, Deserialize)]
+pub struct SpecialPair {
+    pub i: usize,
+    pub j: usize,
+}
+
+fn special_enum(_t: Tier, shard: usize, sink: &mut dyn FnMut(SpecialPair) -> bool) {
+    let n = special_counts().len();
+    for i in 0..n {
+        for j in 0..n {
+            if (i * n + j) % SHARDS == shard && !sink(SpecialPair { i, j }) {
+                return;
+            }
+        }
+    }
+}
+
+fn special_oracle(c: &SpecialPair) -> Verdict {
+    let v = special_counts();
+    let p = Pair { a: Dur::of_count(v[c.i]), b: Dur::of_count(v[c.j]), structured: true, route: (0, 1) };
+    match pair_oracle(&p) {
+        Verdict::Fail(m) => return Verdict::Fail(m),
+        _ => {}
+    }
+    // and against every unit when the right operand is one
+    for (k, u) in UNITS.iter().enumerate() {
+        if v[c.j] == UNIT_NS[k] {
+            if let Verdict::Fail(m) = unitcmp_oracle(&UnitCmp { a: Dur::of_count(v[c.i]), u: k }) {
+                return Verdict::Fail(m);
+            }
+            let _ = u;
+        }
+    }
+    Verdict::Pass("special-pair", true)
+}
+
 pub fn subs() -> Vec<Box<dyn DynSub>> {
     vec![
         sub(Sub { name: "c03.pairs", source: Source::Gen(pair_strategy, 6_000_000, 80_000_000), oracle: pair_oracle, known: no_known, hang_is_violation: false }),
         sub(Sub { name: "c03.triples", source: Source::Gen(triple_strategy, 1_200_000, 10_000_000), oracle: triple_oracle, known: no_known, hang_is_violation: false }),
         sub(Sub { name: "c03.sort", source: Source::Gen(sort_strategy, 120_000, 1_000_000), oracle: sort_oracle, known: no_known, hang_is_violation: false }),
+        sub(Sub { name: "c03.special_pairs", source: Source::Enum(special_enum, |_| true), oracle: special_oracle, known: no_known, hang_is_violation: false }),
         sub(Sub { name: "c03.unit_cmp", source: Source::Gen(unitcmp_strategy, 1_200_000, 10_000_000), oracle: unitcmp_oracle, known: no_known, hang_is_violation: false }),
         crate::props::fuzzsub::fc03(),
     ]
